@@ -5,7 +5,7 @@
 From Coq Require Import List NArith ZArith.
 From Muscle Require Import Refl.Base Refl.BaseProofs Refl.Tree Refl.TreeProofs Refl.Matcher Refl.MatcherProofs
      Refl.Traverse Refl.TraverseSpec Refl.Session Refl.Server Refl.ServerProofs Refl.RefcountProofs
-     Refl.Concrete Refl.Examples Refl.Mirror Refl.MirrorBase Refl.MirrorCmd Refl.MirrorFrame Refl.MirrorProofs
+     Refl.Concrete Refl.Examples Refl.Mirror Refl.MirrorBase Refl.MirrorCmd Refl.MirrorFrame Refl.MirrorQuiet Refl.MirrorProofs
      Refl.MirrorCheck Refl.MirrorExamples Refl.Params Refl.ParamsProofs Refl.ParamsExamples.
 
 (* refcount_inv (full): in every reachable state, for every node n and session id s, the node's subscriber table
@@ -66,25 +66,30 @@ Example C04_state_nontrivial :
 Proof. exact ex1_nontrivial. Qed.
 
 (* mirror_converges_partial.  Premises besides MatchLaws: the three repairs are in (fx = all_fixed on the repaired tree);
-   every change of the tree is announced (no quiet SETDATA / REMOVEDATA) and the observed session o does not subscribe
-   quietly -- other sessions may (ev_ok o: cmd_loud_for); batches nested below the server's limit; what o itself sends
-   (ev_clean o, read along the run: clean_wrun): the SUBSCRIBE: fields of each of its Messages have distinct non-empty
-   paths, the keys of an explicit GETDATA are subscriptions it holds at that moment (same path, same filter: cmd_covered,
-   threaded through a BATCH), and an unsubscribe is a Message of its own (not inside a BATCH); a session arrives under a
-   fresh (host, name) pair (wf_wrun); fewer than 2^31-1 SUBSCRIBE: items.  Client-mirror rule: Refl/Mirror.v (removals
-   first, then sets; on its own unsubscribe the client drops what its remaining subscriptions no longer cover).
+   a session arrives under a fresh (host, name) pair (wf_wrun); fewer than 2^31-1 SUBSCRIBE: items; and, read along the
+   run (ok_wrun), for every command of session b in the state it meets:
+   * ev_ok o -- quiet flags: every change of the tree is announced (no quiet SETDATA / REMOVEDATA) and the observed session
+     o does not subscribe quietly (other sessions may): cmd_loud_for; OR b is another session below whose session node none
+     of o's subscription paths reaches (hidden_data), then b may use any quiet flag (lemma quiet_frame); batches nested
+     below the server's limit;
+   * ev_clean o -- what o itself sends: the SUBSCRIBE: fields of each of its Messages have distinct non-empty paths, the
+     keys of an explicit GETDATA are subscriptions it holds at that moment (same path, same filter: cmd_covered, threaded
+     through a BATCH; lemma getdata_covered_J), and an unsubscribe is a Message of its own (not inside a BATCH).
+   Client-mirror rule: Refl/Mirror.v (removals first, then sets; on its own unsubscribe the client drops what its
+   remaining subscriptions no longer cover).
    Conclusion, at the quiescent point after ANY such history (any number of sessions coming and going, creation,
    overwrite, recursive and wildcard removal, subscription add / filter change / remove, overlapping subscriptions,
    payload changes across a filter, any max-items-per-update, batches): the client of o holds at every path outside o's
    own nodes exactly the node's current payload if one of o's subscriptions (path and filter) accepts it, and nothing
    otherwise -- none missing, none stale, none extra.
-   FULL statement not yet proved: the same with quiet set/remove (restricted to the nodes whose last change was
-   announced), with unsubscribes inside the observer's batches, reflect-to-self, ordered indices. *)
+   FULL statement not yet proved: quiet set/remove on nodes the observer's subscription paths do reach (the statement would
+   then be restricted to the nodes whose last change was announced), unsubscribes inside the observer's batches,
+   reflect-to-self, ordered indices. *)
 Theorem C04_mirror_converges_partial :
   forall (M : MatchOps) (L : MatchLaws M) (fx : fixes),
   fx_guard fx = true -> fx_overlap fx = true -> fx_push fx = true ->
   forall (evs : list event) (o : sid),
-  wf_wrun fx empty_world evs -> Forall (ev_ok o) evs -> clean_wrun fx o empty_world evs -> small (run_budget evs) ->
+  wf_wrun fx empty_world evs -> ok_wrun fx o empty_world evs -> small (run_budget evs) ->
   forall (c : client) (ss : session),
   In c (w_clients (world_run fx evs empty_world)) -> c_id c = o ->
   get_session (w_srv (world_run fx evs empty_world)) o = Some ss ->
@@ -100,7 +105,7 @@ Theorem C04_mirror_converges_wire :
   forall (M : MatchOps) (L : MatchLaws M) (fx : fixes),
   fx_guard fx = true -> fx_overlap fx = true -> fx_push fx = true ->
   forall (evs : list event) (o : sid),
-  wf_prun fx empty_pworld evs -> Forall (ev_ok o) evs -> clean_prun fx o empty_pworld evs -> small (run_budget evs) ->
+  wf_prun fx empty_pworld evs -> ok_prun fx o empty_pworld evs -> small (run_budget evs) ->
   let w := pw_world (pworld_run fx evs empty_pworld) in
   forall (c : client) (ss : session),
   In c (w_clients w) -> c_id c = o -> get_session (w_srv w) o = Some ss ->
@@ -139,12 +144,12 @@ Example C04_mirror_premises_satisfiable :
 Proof. exact exm_premises. Qed.
 Example C04_mirror_premises_imply_hypotheses :
   forall (M : MatchOps) (L : MatchLaws M) (fx : fixes) evs o, premises_b fx evs o = true ->
-  wf_wrun fx empty_world evs /\ Forall (ev_ok o) evs /\ clean_wrun fx o empty_world evs /\ small (run_budget evs).
+  wf_wrun fx empty_world evs /\ ok_wrun fx o empty_world evs /\ small (run_budget evs).
 Proof. exact @premises_b_spec. Qed.
 (* ... and by a history in which another session subscribes quietly and the observer sends explicit GETDATA for what it is
    subscribed to, alone and inside a BATCH *)
 Example C04_mirror_premises_satisfiable_getdata :
-  wf_wrun all_fixed empty_world exg /\ Forall (ev_ok 0%N) exg /\ clean_wrun all_fixed 0%N empty_world exg /\ small (run_budget exg).
+  wf_wrun all_fixed empty_world exg /\ ok_wrun all_fixed 0%N empty_world exg /\ small (run_budget exg).
 Proof. exact exg_premises. Qed.
 Example C04_mirror_getdata_nontrivial :
   holds_at (world_run all_fixed exg empty_world) 0%N (1 :: 11 :: 21 :: nil)%N = true
@@ -153,11 +158,22 @@ Proof. exact exg_nontrivial. Qed.
 
 (* non-vacuity of mirror_converges_wire, and the parameter-name rule on a concrete history *)
 Example C04_wire_premises_satisfiable :
-  wf_prun_b all_fixed empty_pworld exw = true /\ forallb (ev_ok_b 0%N) exw = true /\ clean_prun_b all_fixed 0%N empty_pworld exw = true.
+  wf_prun_b all_fixed empty_pworld exw = true /\ ok_prun_b all_fixed 0%N empty_pworld exw = true.
 Proof. exact wire_premises_satisfiable. Qed.
-Example C04_wire_clean_check_implies_hypothesis :
-  forall (fx : fixes) o evs pw, clean_prun_b fx o pw evs = true -> clean_prun fx o pw evs.
-Proof. exact clean_prun_b_spec. Qed.
 Example C04_wire_premises_imply_hypotheses :
   forall (fx : fixes) evs pw, wf_prun_b fx pw evs = true -> wf_prun fx pw evs.
 Proof. exact wf_prun_b_spec. Qed.
+Example C04_wire_ok_check_implies_hypothesis :
+  forall (fx : fixes) o evs pw, ok_prun_b fx o pw evs = true -> ok_prun fx o pw evs.
+Proof. exact ok_prun_b_spec. Qed.
+
+(* ... and by a history in which a session the observer cannot see sets and removes quietly (quiet_frame) *)
+Example C04_mirror_premises_satisfiable_quiet :
+  wf_wrun all_fixed empty_world exq /\ ok_wrun all_fixed 0%N empty_world exq /\ small (run_budget exq).
+Proof. exact exq_premises. Qed.
+Example C04_mirror_quiet_nontrivial :
+  holds_at (world_run all_fixed exq empty_world) 0%N (1 :: 11 :: 21 :: nil)%N = true
+  /\ holds_at (world_run all_fixed exq empty_world) 0%N (1 :: 12 :: 21 :: nil)%N = true
+  /\ option_map (fun c => length (c_mirror c)) (find (fun c => N.eqb (c_id c) 0%N) (w_clients (world_run all_fixed exq empty_world))) = Some 1%nat
+  /\ length (sv_tree (w_srv (world_run all_fixed exq empty_world))) = 7%nat.
+Proof. exact exq_nontrivial. Qed.
